@@ -41,6 +41,12 @@ CLAIMS = {
             "forgotten; collide() completes both records once and hands the value over; the op-code each public method publishes is executed "
             "as the same-named deque operation. This decides the statement's 'in particular' clause, not linearizability.",
             "static analysis: path table (PATHTABLE) with op-code/end derivation from fc_apply", "DESIGN.md §4 C10"),
+    "C12": ("other", "Path rules with affine comparison over every producer/consumer member of WeakRingBuffer<T> and <void>: failure only after "
+            "an acquire refresh of the cached opposite counter and a re-test with the same amount; cells used only after the test came out "
+            "false, addressed through buffer.mod(), accessed before the releasing counter store; published amounts (+1, per-element batch, "
+            "calc_real_size of the header at the counter); wrap path writes and publishes the tail marker and re-checks space; marker helpers and "
+            "calc_real_size evaluated for all sizes in the bit domain; buffer mod() overloads. FIFO/exactly-once as behaviour is not decided.",
+            "static analysis: path enumeration with value numbering + affine forms + bit-provenance evaluation of the size helpers", "DESIGN.md §4 C12"),
     "C17": ("other", "Hash-independent element conservation on every CFG path of the relocation code: CuckooSet::resize and relocate insert "
             "each moved element exactly once (known finding D5: the all-probe-sets-full path of resize drops the element), probe-set positions "
             "are used before anything mutates the probe sets, StripedSet::internal_resize moves every element of every old bucket once into "
